@@ -18,14 +18,15 @@ def DictSlotOK (V0 : List Key) (s : Slot) : Prop :=
   (s.st ≠ .free → s.published = false → s.removed = false → s.key ∉ V0) ∧
   (s.modified = true → s.published = true)
 
-theorem dok_ins_resurrect {V : List Key} {s : Slot} (h : DictSlotOK V s) (hp : s.st = .pending) :
-    DictSlotOK V (dInsBits { s with st := .live }) := by
-  unfold DictSlotOK dInsBits at *
+theorem dok_ins_resurrect {V : List Key} {s : Slot} {t : Time} (h : DictSlotOK V s) (hp : s.st = .pending) :
+    DictSlotOK V (dInsBitsAt t { s with st := .live }) := by
+  unfold DictSlotOK dInsBitsAt dMarkBits dInsBits at *
   grind
 
-theorem dok_ins_fresh {V : List Key} {s : Slot} {k : Key} (h : DictSlotOK V s) (hp : s.st = .free) (hk : k ∉ V) :
-    DictSlotOK V (dInsBits { s with st := .live, key := k, cval := 0, clmt := 0 }) := by
-  unfold DictSlotOK dInsBits at *
+theorem dok_ins_fresh {V : List Key} {s : Slot} {k : Key} {t : Time} (h : DictSlotOK V s) (hp : s.st = .free)
+    (hk : k ∉ V) :
+    DictSlotOK V (dInsBitsAt t { s with st := .live, key := k, cval := 0, clmt := 0 }) := by
+  unfold DictSlotOK dInsBitsAt dMarkBits dInsBits at *
   grind
 
 theorem dok_rem {V : List Key} {s : Slot} (h : DictSlotOK V s) (hp : s.st = .live) :
@@ -65,6 +66,13 @@ theorem dInsBits_sk (s : Slot) : (dInsBits s).st = s.st ∧ (dInsBits s).key = s
   unfold dInsBits; split
   · exact ⟨rfl, rfl⟩
   · split <;> exact ⟨rfl, rfl⟩
+
+theorem dMarkBits_sk (t : Time) (s : Slot) : (dMarkBits t s).st = s.st ∧ (dMarkBits t s).key = s.key := by
+  unfold dMarkBits; split <;> exact ⟨rfl, rfl⟩
+
+theorem dInsBitsAt_sk (t : Time) (s : Slot) : (dInsBitsAt t s).st = s.st ∧ (dInsBitsAt t s).key = s.key := by
+  unfold dInsBitsAt
+  exact ⟨((dMarkBits_sk t _).1).trans (dInsBits_sk s).1, ((dMarkBits_sk t _).2).trans (dInsBits_sk s).2⟩
 
 theorem dRemBits_sk (s : Slot) : (dRemBits s).st = s.st ∧ (dRemBits s).key = s.key := by
   unfold dRemBits
@@ -199,8 +207,8 @@ theorem TSD.insertKey_inv {x : TSD} {V0 : List Key} (h : x.Inv V0) (t : Time) (k
     · rw [hi2]; exact hi4
   | resurrect hi1 hi2 hi3 hi4 hi5 =>
     simp only [hi1, ↓reduceIte]
-    have hget : ∀ j, sget ((x1.keys.insert k).1.modifySlot (x1.keys.insert k).2.slot dInsBits).slots j =
-        if j = (x1.keys.insert k).2.slot then dInsBits { sget x1.keys.slots (x1.keys.insert k).2.slot with st := .live }
+    have hget : ∀ j, sget ((x1.keys.insert k).1.modifySlot (x1.keys.insert k).2.slot (dInsBitsAt t)).slots j =
+        if j = (x1.keys.insert k).2.slot then dInsBitsAt t { sget x1.keys.slots (x1.keys.insert k).2.slot with st := .live }
         else sget x1.keys.slots j := by
       intro j
       simp only [Store.modifySlot, sget_modify, hi5]
@@ -210,25 +218,25 @@ theorem TSD.insertKey_inv {x : TSD} {V0 : List Key} (h : x.Inv V0) (t : Time) (k
         simp [this, hj]
     refine ⟨?_, hd, hl, ?_, ?_⟩
     · apply TSD.Inv_update h1 (i := (x1.keys.insert k).2.slot)
-        (s' := dInsBits { sget x1.keys.slots (x1.keys.insert k).2.slot with st := .live })
-      · exact Store.WF_modifySlot hwf _ _ dInsBits_sk
+        (s' := dInsBitsAt t { sget x1.keys.slots (x1.keys.insert k).2.slot with st := .live })
+      · exact Store.WF_modifySlot hwf _ _ (dInsBitsAt_sk t)
       · exact hget
       · exact dok_ins_resurrect (h1.slot _) hi3
       · intro _
-        have := dInsBits_sk { sget x1.keys.slots (x1.keys.insert k).2.slot with st := .live }
+        have := dInsBitsAt_sk t { sget x1.keys.slots (x1.keys.insert k).2.slot with st := .live }
         rw [this.1, this.2]
         exact ⟨by simp, rfl⟩
-    · rw [hget, if_pos rfl, (dInsBits_sk _).1]
-    · rw [hget, if_pos rfl, (dInsBits_sk _).2]; exact hi4
+    · rw [hget, if_pos rfl, (dInsBitsAt_sk _ _).1]
+    · rw [hget, if_pos rfl, (dInsBitsAt_sk _ _).2]; exact hi4
   | fresh hi1 hi2 hi3 hi4 hi5 =>
     simp only [hi1, ↓reduceIte]
     have hkV : k ∉ V := by
       intro hk
       obtain ⟨i, hs, hki⟩ := h1.cover k hk
       exact hi3 i hs hki
-    have hget : ∀ j, sget ((x1.keys.insert k).1.modifySlot (x1.keys.insert k).2.slot dInsBits).slots j =
+    have hget : ∀ j, sget ((x1.keys.insert k).1.modifySlot (x1.keys.insert k).2.slot (dInsBitsAt t)).slots j =
         if j = (x1.keys.insert k).2.slot then
-          dInsBits { sget x1.keys.slots (x1.keys.insert k).2.slot with st := .live, key := k, cval := 0, clmt := 0 }
+          dInsBitsAt t { sget x1.keys.slots (x1.keys.insert k).2.slot with st := .live, key := k, cval := 0, clmt := 0 }
         else sget x1.keys.slots j := by
       intro j
       simp only [Store.modifySlot, sget_modify, hi5]
@@ -238,13 +246,13 @@ theorem TSD.insertKey_inv {x : TSD} {V0 : List Key} (h : x.Inv V0) (t : Time) (k
         simp [this, hj]
     refine ⟨?_, hd, hl, ?_, ?_⟩
     · apply TSD.Inv_update h1 (i := (x1.keys.insert k).2.slot)
-        (s' := dInsBits { sget x1.keys.slots (x1.keys.insert k).2.slot with st := .live, key := k, cval := 0, clmt := 0 })
-      · exact Store.WF_modifySlot hwf _ _ dInsBits_sk
+        (s' := dInsBitsAt t { sget x1.keys.slots (x1.keys.insert k).2.slot with st := .live, key := k, cval := 0, clmt := 0 })
+      · exact Store.WF_modifySlot hwf _ _ (dInsBitsAt_sk t)
       · exact hget
       · exact dok_ins_fresh (h1.slot _) hi4 hkV
       · intro hne; exact absurd hi4 hne
-    · rw [hget, if_pos rfl, (dInsBits_sk _).1]
-    · rw [hget, if_pos rfl, (dInsBits_sk _).2]
+    · rw [hget, if_pos rfl, (dInsBitsAt_sk _ _).1]
+    · rw [hget, if_pos rfl, (dInsBitsAt_sk _ _).2]
 
 theorem TSD.removeKey_inv {x : TSD} {V0 : List Key} (h : x.Inv V0) (t : Time) (k : Key) :
     (x.removeKey t k).1.Inv (x.ghost V0 t) ∧ (x.removeKey t k).1.deltaTime = max x.deltaTime t ∧
